@@ -37,9 +37,33 @@ def make_engine():
     return eng
 
 
+# mirror of LayoutDecode!DefaultEngine / OtherEngines (thresholds in 1/1000); the trace carries the record and
+# LayoutDecode_Trace!HistBound compares it with the spec's
+DEFAULT_ENGINE = {"range": 5, "smooth": True, "lew": 1000, "thr": 200}
+OTHER_ENGINES = [{"range": 35, "smooth": False, "lew": 0, "thr": 200},
+                 {"range": 5, "smooth": True, "lew": 1000, "thr": 900},
+                 {"range": 21, "smooth": True, "lew": 2500, "thr": 100}]
+
+
+def build_engine(params):
+    """LayoutEngine from its REAL constructor with the keyword arguments PageParser's LayoutExtractor passes for one
+    LAYOUT_PARSER section; only the network class is replaced (no model file) by the stub"""
+    import pero_ocr.layout_engines.cnn_layout_engine as cle
+    orig = cle.TorchParseNet
+    cle.TorchParseNet = lambda *a, **kw: StubNet(None)
+    try:
+        with contextlib.redirect_stdout(io.StringIO()):
+            return cle.LayoutEngine(model_path=None, device=None, downsample=4, adaptive_downsample=True,
+                                    detection_threshold=params["thr"] / 1000.0, max_mp=5.0, line_end_weight=params["lew"] / 1000.0,
+                                    vertical_line_connection_range=params["range"], smooth_line_predictions=params["smooth"],
+                                    paragraph_line_threshold=0.3)
+    finally:
+        cle.TorchParseNet = orig
+
+
 # --------------------------------------------------------------------------------------------- ridges
 def ridge_bounds(**kw):
-    b = {"MapH": 46, "MapW": 64, "Dss": [1, 2, 4], "Rows": [8, 24, 39], "X0s": [3, 12], "Lens": [0, 30], "Dys": [0]}
+    b = {"MapH": 46, "MapW": 64, "Dss": [1, 2, 4], "Rows": [8, 24, 39], "X0s": [3, 12], "Lens": [0, 30], "Dys": [0], "Hists": [0]}
     b.update(kw)
     return b
 
@@ -47,7 +71,7 @@ def ridge_bounds(**kw):
 def tla_constants(b=None, mode="ridges", variant="ok", max_h=5, max_w=7):
     b = b or ridge_bounds()
     return {"Mode": mode, "Variant": variant, "MaxH": max_h, "MaxW": max_w, "MapH": b["MapH"], "MapW": b["MapW"],
-            "Dss": set(b["Dss"]), "Rows": set(b["Rows"]), "X0s": set(b["X0s"]), "Lens": set(b["Lens"]), "Dys": set(b.get("Dys", [0]))}
+            "Dss": set(b["Dss"]), "Rows": set(b["Rows"]), "X0s": set(b["X0s"]), "Lens": set(b["Lens"]), "Dys": set(b.get("Dys", [0])), "Hists": set(b.get("Hists", [0]))}
 
 
 def enumerate_ridge_cases(b):
@@ -55,7 +79,8 @@ def enumerate_ridge_cases(b):
     rows = sorted(b["Rows"])
     options = [(0, 0)] + [(x0, ln) for x0 in b["X0s"] for ln in b["Lens"]]
     out = []
-    for k, ds, ep, rm, dy in itertools.product(range(4), b["Dss"], (False, True), (False, True), b.get("Dys", [0])):
+    for k, ds, ep, rm, dy, hist in itertools.product(range(4), b["Dss"], (False, True), (False, True), b.get("Dys", [0]),
+                                                     b.get("Hists", [0])):
         for ch in itertools.product(options, repeat=len(rows)):
             if all(o == (0, 0) for o in ch):
                 continue
@@ -70,7 +95,8 @@ def enumerate_ridge_cases(b):
                     ok = False
                 ridges.append({"y": y, "x0": o[0], "x1": o[0] + ln - 1, "a2": asc2(y), "d2": desc2(y), "dy": dy})
             if ok:
-                out.append({"mode": "ridges", "k": k, "ds": ds, "ep": ep, "rm": rm, "ridges": ridges, "mh": b["MapH"], "mw": b["MapW"]})
+                out.append({"mode": "ridges", "k": k, "ds": ds, "ep": ep, "rm": rm, "hist": hist, "ridges": ridges, "mh": b["MapH"],
+                            "mw": b["MapW"]})
     return out
 
 
@@ -119,9 +145,8 @@ def _bbox(arr):
 
 
 def run_ridge_case(case):
-    eng = make_engine()
+    hist = case.get("hist", 0)
     net = StubNet(case)
-    eng.parsenet = net
     k, ds = case["k"], case["ds"]
     # the page need not be a multiple of the down-sampling factor (LayoutDecode!RotH / RotW)
     rot_h = case["mh"] * ds + (ds - 1 if case.get("rm") else 0)
@@ -129,9 +154,25 @@ def run_ridge_case(case):
     orig = (rot_w, rot_h) if k in (1, 3) else (rot_h, rot_w)
     img = np.zeros(orig + (3,), np.uint8)
     rec = {"mode": "ridges", "k": k, "ds": ds, "ep": bool(case["ep"]), "rm": bool(case.get("rm", False)), "ridges": case["ridges"], "outcome": "ok",
-           "seen": [0, 0], "lines": [], "plines": [], "reg": [], "nreg": 0}
-    np.random.seed(12345)            # parse() breaks ties of the left-to-right sort with np.random.rand()
+           "seen": [0, 0], "lines": [], "plines": [], "reg": [], "nreg": 0, "hist": hist}
     try:
+        if hist == 0:
+            eng = make_engine()
+        else:
+            # several engines in one process (PageParser: one LayoutEngine per LAYOUT_PARSER section): the default engine and ANOTHER
+            # one with other constructor parameters, both from the real constructor, the other one built later; the other engine
+            # parses a page first, then the default engine decodes the maps of the configuration
+            rec["other"] = dict(OTHER_ENGINES[hist - 1])
+            eng = build_engine(DEFAULT_ENGINE)
+            other = build_engine(OTHER_ENGINES[hist - 1])
+            try:
+                with contextlib.redirect_stdout(io.StringIO()), warnings.catch_warnings(), np.errstate(all="ignore"):
+                    warnings.simplefilter("ignore")
+                    other.parse(render(case["mh"], case["mw"], case["ridges"], case["ep"]), ds)
+            except Exception:        # (what the other engine makes of the page is not judged)
+                pass
+        eng.parsenet = net
+        np.random.seed(12345)        # parse() breaks ties of the left-to-right sort with np.random.rand()
         with contextlib.redirect_stdout(io.StringIO()), warnings.catch_warnings(), np.errstate(all="ignore"):
             warnings.simplefilter("ignore")
             p_list, b_list, h_list, t_list = eng.detect(img, rot=k)
@@ -142,7 +183,7 @@ def run_ridge_case(case):
             warnings.simplefilter("ignore")
             # (decoded five times from the SAME array: decoding must not depend on what the array went through in an earlier decode)
             same_maps = render(case["mh"], case["mw"], case["ridges"], case["ep"])
-            for _ in range(5):        # (an in-place blur of a strong synthetic ridge needs a few passes to move an end point)
+            for _ in range(5 if hist == 0 else 1):        # (an in-place blur of a strong synthetic ridge needs a few passes to move an end point)
                 np.random.seed(12345)
                 pb, _, _ = eng.parse(same_maps, ds)
         rec["plines"] = [{"pts": [[_milli(x), _milli(y)] for x, y in np.asarray(b, dtype=float)]} for b in pb]
@@ -205,6 +246,36 @@ def run_pixel_case(case):
 
 def run_case(case):
     return run_pixel_case(case) if case["mode"] == "pixels" else run_ridge_case(case)
+
+
+def _run_cases(cases):
+    return [run_ridge_case(c) for c in cases]
+
+
+def run_history_cases(cases):
+    """the configurations with hist > 0, one forked child process per value of hist: in each child the FIRST parse() of the
+    process is the one of the other engine (state that the first user of a class fills for everybody shows there; the parent has
+    not executed any pero_ocr code when this is called), and every case is self-contained (both engines are built anew), so
+    that a replay of one case in a fresh process re-creates its history"""
+    import multiprocessing as mp
+    from concurrent.futures import ProcessPoolExecutor
+    groups = {}
+    for i, c in enumerate(cases):
+        groups.setdefault(c["hist"], []).append(i)
+    out = [None] * len(cases)
+    if not groups:
+        return out
+    # one pool with a single worker per group = one freshly forked process per value of hist (forked at submit time)
+    pools = {h: ProcessPoolExecutor(max_workers=1, mp_context=mp.get_context("fork")) for h in sorted(groups)}
+    try:
+        futs = {h: pools[h].submit(_run_cases, [cases[i] for i in groups[h]]) for h in sorted(groups)}
+        for h, idx in groups.items():
+            for i, tr in zip(idx, futs[h].result()):
+                out[i] = tr
+    finally:
+        for pool in pools.values():
+            pool.shutdown(wait=True)
+    return out
 
 
 def enumerate_pixel_cases(max_h, max_w):
